@@ -313,7 +313,7 @@ def main(argv=None):
 def _label_matches(label, entry):
     import fnmatch
 
-    return fnmatch.fnmatchcase(label, entry.get("obligation", "*"))
+    return any(fnmatch.fnmatchcase(label, pat) for pat in entry.get("obligation", "*").split("|"))
 
 
 def _collect_functions(results):
